@@ -37,6 +37,9 @@ func sqlFill(st *SQLiteStore, n int) []sqlRec {
 	recs := make([]sqlRec, 0, n)
 	for i := 0; i < n; i++ {
 		r := sqlRec{typ: vStr("type"), data: []byte{'0' + byte(i)}, ts: time.Unix(int64(1000+i), 0).UTC()}
+		if i == 0 && vBool() {
+			r.ts = time.Time{} // the zero time is a valid timestamp too
+		}
 		o, err := st.Append(bg, &eventbus.Event{Type: r.typ, Data: r.data, Timestamp: r.ts})
 		vAssert(err == nil, "append-ok")
 		r.off = o
